@@ -121,7 +121,7 @@ Definition path_parts (s : str) : list str :=
 (* where a resolved absolute path lies relative to the source directory *)
 Inductive fsloc :=
 | Inside (rel : list str)          (* srcdir / rel *)
-| Outside (abs : list str) (dbl : bool).  (* not below srcdir; dbl: '//' root *)
+| Outside (abs : list str).        (* / abs : not below srcdir *)
 
 Fixpoint strip_prefix (pre l : list str) : option (list str) :=
   match pre, l with
@@ -133,7 +133,7 @@ Fixpoint strip_prefix (pre l : list str) : option (list str) :=
 Definition locate (srcdir abs : list str) : fsloc :=
   match strip_prefix srcdir abs with
   | Some rel => Inside rel
-  | None => Outside abs false
+  | None => Outside abs
   end.
 
 (* BuildEnvironment.relfn2path(filename, docname) -> abs_fn, as a location.
@@ -142,7 +142,7 @@ Definition locate (srcdir abs : list str) : fsloc :=
 Definition relfn2path (srcdir docdir : list str) (filename : str) : fsloc :=
   let parts := path_parts filename in
   match path_root filename with
-  | Root2 => Outside (norm_loop true parts []) true
+  | Root2 => locate srcdir (norm_loop true parts [])   (* realpath turns the '//' root into '/' *)
   | Root1 => locate srcdir (norm_loop true (srcdir ++ parts) [])
   | NoRoot =>
       match parts with
@@ -182,7 +182,7 @@ Fixpoint split_last (l : list str) : option (list str * str) :=
 Definition path2doc (sufs : list str) (loc : fsloc) : option str :=
   let '(segs, pre) := match loc with
                       | Inside rel => (rel, [])
-                      | Outside abs dbl => (abs, if dbl then [c_slash; c_slash] else s_slash)
+                      | Outside abs => (abs, s_slash)
                       end in
   match split_last segs with
   | None => None
